@@ -135,6 +135,9 @@ def oracle_fit(ctx, thorough, forced=None):
             weight = (wk, ssd.A, ssd.B, ssd.C, ssd.D)
         else:       # a second-order filter in modal form, feasible with the initial P = I
             weight = (wk, np.diag([0.6, -0.3]), np.array([[0.3], [0.2]]), np.array([[2.0, -3.0]]), np.array([[0.5]]))
+            if forced is not None and len(forced) > 2:
+                poles, cw = forced[2]
+                weight = (wk, np.diag(poles), np.array([[0.3], [0.2]]), np.array([cw]), np.array([[0.5]]))
     fam = rng.choice(['edmd', 'dmdc'])
     if forced is not None:
         fam = forced[1]
@@ -279,7 +282,21 @@ def run(ctx):
         ctx.record_case(tag, True)
         if why:
             ctx.fail(why, tag, {'estimator': 'LmiHinfZpkMeta', 'units': tag['units']})
-    return ctx.finish('proof', None)
+
+    def search(ctx):
+        """the structure / loop correspondence broke: more tight-gamma fits with second-order weights of the kinds whose
+        structure disagreed (all kinds when the disagreement is elsewhere), several modal weights and both families"""
+        kinds = sorted({str(m.case.get('weight')) for m in ctx.mismatches if isinstance(m.case, dict)}
+                       & {'pre', 'post'}) or ['post', 'pre']
+        variants = [([0.6, -0.3], [2.0, -3.0]), ([0.5, -0.5], [3.0, -2.0]), ([0.6, 0.2], [-1.0, 2.5]),
+                    ([0.4, -0.6], [2.5, 1.5])]
+        for i in range(48):
+            forced = (kinds[i % len(kinds)], ('edmd', 'dmdc')[(i // len(kinds)) % 2], variants[(i // 4) % len(variants)])
+            why, case, note = oracle_fit(ctx, False, forced=forced)
+            if why:
+                ctx.fail(why, case, {'family': case['family'], 'weight': case['weight']})
+                return
+    return ctx.finish('proof', search)
 
 
 def replay(ctx, path):
